@@ -142,8 +142,10 @@ def run(ctx):
                     exp = {k: S.neg(A[k]) for k in A}
                     for k, v in res.items():
                         # exact sign flip (negation "flips entries exactly", also the sign of zero): the term must be fneg(entry)
-                        if not (v.op == 'fneg' and v.args[0].op == 'atom'):
-                            bad = 'entry (col %d,row %d) of the negation is %s, not the sign-flipped entry (0 - x loses the sign of zero)' % (k[0], k[1], tm.show(v, 0, 3)[:80])
+                        # x * -1.0 flips the sign bit exactly as well
+                        m1 = v.op == 'fmul' and len(v.args) == 2 and any(a_.op == 'atom' for a_ in v.args) and any(tm.is_const(a_) and tm.f_of(a_) == -1.0 for a_ in v.args)
+                        if not (v.op == 'fneg' and v.args[0].op == 'atom') and not m1:
+                            bad = 'entry (col %d,row %d) of the negation is %s, not the sign-flipped entry (fneg(x) or x * -1.0; 0 - x would lose the sign of zero)' % (k[0], k[1], tm.show(v, 0, 3)[:80])
                             break
                 elif kind == 'transpose':
                     exp = S.transpose(A, n)
